@@ -107,6 +107,18 @@ func genC14(rng *rand.Rand, n int, emit func(Case), dist map[string]int) {
 			}
 			data := make([]byte, blen)
 			rng.Read(data)
+			// sometimes the handler does not read the body itself but lets net/http parse it as a form (c.FormParams): the
+			// bytes then are urlencoded text, and the reads are those of the form parser, logged below the limiting reader
+			formRead := rng.Intn(8) == 0
+			if formRead {
+				for i := range data {
+					data[i] = 'a' + byte(i%26)
+				}
+				if blen >= 2 {
+					data[1] = '='
+				}
+				dist["handler_reads_through_FormParams"]++
+			}
 			body := &c14Body{data: data, failAt: -1, eofWith: rng.Intn(2) == 0}
 			for k := 1 + rng.Intn(3); k > 0; k-- {
 				body.chunks = append(body.chunks, 1+rng.Intn(lim+4))
@@ -138,9 +150,19 @@ func genC14(rng *rand.Rand, n int, emit func(Case), dist map[string]int) {
 			// handler
 			var seen [][2]int
 			var got []byte
+			var formErr error
 			ran := false
 			h := func(c echo.Context) error {
 				ran = true
+				if formRead {
+					lg := &c14LogReader{inner: c.Request().Body, seen: &seen, got: &got}
+					c.Request().Body = lg
+					_, formErr = c.FormParams()
+					if handlerFails {
+						return errC14Handler
+					}
+					return nil
+				}
 				rd := c.Request().Body
 				after := -1
 				for i := 0; i < maxReads; i++ {
@@ -171,7 +193,15 @@ func genC14(rng *rand.Rand, n int, emit func(Case), dist map[string]int) {
 				}
 				return nil
 			}
-			req := httptest.NewRequest(http.MethodPost, "/", nil)
+			method := []string{http.MethodPost, http.MethodPost, http.MethodPut, http.MethodPatch, http.MethodGet, http.MethodDelete, http.MethodOptions, http.MethodHead, "TRACE"}[rng.Intn(9)]
+			if formRead {
+				method = http.MethodPost
+			}
+			dist["method_"+method]++
+			req := httptest.NewRequest(method, "/", nil) // (a body is legal with every method)
+			if formRead {
+				req.Header.Set(echo.HeaderContentType, echo.MIMEApplicationForm)
+			}
 			req.Body = body
 			req.ContentLength = declared
 			rec := httptest.NewRecorder()
@@ -199,6 +229,9 @@ func genC14(rng *rand.Rand, n int, emit func(Case), dist map[string]int) {
 			// property predicate on the implementation's observables alone
 			if declared > int64(lim) && ran {
 				ok, why = false, "declared length above the limit reached the handler"
+			}
+			if ran && formRead && blen > lim && formErr == nil && body.failAt < 0 {
+				ok, why = false, fmt.Sprintf("the handler parsed a %d-byte form (limit %d) through c.FormParams without any error", blen, lim)
 			}
 			if ran {
 				before := 0
@@ -267,3 +300,26 @@ func genC14(rng *rand.Rand, n int, emit func(Case), dist map[string]int) {
 }
 
 func L2(a, b int) Sx { return L(I(a), I(b)) }
+
+// c14LogReader records what a reader ABOVE the limiting reader asks for and gets (the form parser of net/http)
+type c14LogReader struct {
+	inner io.ReadCloser
+	seen  *[][2]int
+	got   *[]byte
+}
+
+func (l *c14LogReader) Read(p []byte) (int, error) {
+	k, err := l.inner.Read(p)
+	code := 0
+	if err == io.EOF {
+		code = 1
+	} else if he, isHE := err.(*echo.HTTPError); isHE && he.Code == http.StatusRequestEntityTooLarge {
+		code = 3
+	} else if err != nil {
+		code = 2
+	}
+	*l.seen = append(*l.seen, [2]int{k, code})
+	*l.got = append(*l.got, p[:k]...)
+	return k, err
+}
+func (l *c14LogReader) Close() error { return l.inner.Close() }
